@@ -13,7 +13,7 @@ def warm():
 
 def gen(tier, seed):
     n = {"quick": 700, "thorough": 6000}[tier]
-    kw = dict(max_depth=3, error_rate=0.05, features={"flat": 0.3, "typed": 0.35, "loops": 0.3, "temps": 0.3, "maps": 0.3})
+    kw = dict(max_depth=3, error_rate=0.05, features={"flat": 0.3, "typed": 0.35, "loops": 0.3, "temps": 0.3, "maps": 0.3, "classes": 0.35})
     progs, stats = gen_prog.programs(seed * 1000003 + 3, n, **kw)
     # the same programs with every operator expression fully parenthesised: what C precedence and associativity say the first text means
     twins, _ = gen_prog.programs(seed * 1000003 + 3, n, full_parens=True, **kw)
